@@ -21,7 +21,7 @@ RULE = ("generated channel programs (1-6 channels made by remote_exec / newchann
         "distinct sync-point interleavings")
 ASSUMPTIONS = ["injected stalls <= 30 ms at line boundaries of execnet code; 'lost' = not delivered within 10 s after the last send"]
 MINIMUM = {"items_delivered": 20000, "signatures": 50, "runs": 100, "sweep_fired": 100}
-SHARD_TIMEOUT = {"quick": 200, "thorough": 2400}
+SHARD_TIMEOUT = {"quick": 120, "thorough": 2400}
 
 
 def shards(tier, seed):
